@@ -9,25 +9,21 @@ namespace SSJ
 
 /-! ### similarity functions of py_stringmatching on token lists (utils/simfunctions.py) -/
 
-/-- `len(set1 & set2)` -/
-def interCount {α : Type} [DecidableEq α] [BEq α] (l r : List α) : Nat :=
-  ((dedup l).filter (fun t => r.contains t)).length
+/-- the double-precision formula of py_stringmatching's Jaccard / Cosine / Dice on the three
+    counts `|A ∩ B|`, `|A|`, `|B|` -/
+def simFormula (m : Measure) (i a b : Nat) : PyV :=
+  match m with
+  | .jaccard => PyV.div (PyV.toFloat (.int i)) (PyV.toFloat (.int ((a : Int) + b - i)))
+  | .cosine => PyV.div (PyV.toFloat (.int i)) (PyV.mul (PyV.sqrt (PyV.toFloat (.int a))) (PyV.sqrt (PyV.toFloat (.int b))))
+  | .dice => PyV.div (PyV.mul (.float 2) (PyV.toFloat (.int i))) (PyV.toFloat (.int ((a : Int) + b)))
+  | _ => .err .other
 
-def setLen {α : Type} [DecidableEq α] (l : List α) : Nat := (dedup l).length
-
-/-- `get_sim_function(measure)(l, r)` for JACCARD / COSINE / DICE on lists of token ranks:
-    exact-match shortcut 1.0, empty shortcut 0 (an int), else the double-precision formula -/
-def simRaw (m : Measure) (l r : List Nat) : PyV :=
+/-- `get_sim_function(measure)(l, r)` for JACCARD / COSINE / DICE on two lists:
+    exact-match shortcut 1.0, empty shortcut 0 (an int), else the formula on set sizes -/
+def simRaw {α : Type} [DecidableEq α] (m : Measure) (l r : List α) : PyV :=
   if l = r then .float 1 else
   if l.length = 0 || r.length = 0 then .int 0 else
-  let i : Int := interCount l r
-  let a : Int := setLen l
-  let b : Int := setLen r
-  match m with
-  | .jaccard => PyV.div (PyV.toFloat (.int i)) (PyV.toFloat (.int (a + b - i)))
-  | .cosine => PyV.div (PyV.toFloat (.int i)) (PyV.mul (PyV.sqrt (PyV.toFloat (.int a))) (PyV.sqrt (PyV.toFloat (.int b))))
-  | .dice => PyV.div (PyV.mul (.float 2) (PyV.toFloat (.int i))) (PyV.toFloat (.int (a + b)))
-  | _ => .err .other
+  simFormula m (interCount l r) (setLen l) (setLen r)
 
 def scoreCell : PyV → Cell
   | .int i => .int i
